@@ -10,7 +10,9 @@ import (
 	"testing"
 	"time"
 
+	"github.com/lindb/common/pkg/logger"
 	"github.com/lindb/roaring"
+	"go.uber.org/zap/zapcore"
 	"pgregory.net/rapid"
 
 	"github.com/lindb/lindb/kv"
@@ -21,7 +23,11 @@ import (
 
 func TestMain(m *testing.M) { ev.Main(m) }
 
-func init() { time.Local = time.UTC }
+func init() {
+	time.Local = time.UTC
+	// lindb logs every store/family/edit-log event at info level to stdout
+	logger.RunningAtomicLevel.SetLevel(zapcore.FatalLevel)
+}
 
 // ---- generators -----------------------------------------------------------------------------
 
@@ -174,11 +180,6 @@ func genFileMetric(t *rapid.T, sc *schema, metricID uint32, lbl string) *fileMet
 	if len(fm.Fields) > 1 && rapid.Bool().Draw(t, lbl+"permute") {
 		fm.Fields = permute(t, lbl+"perm", fm.Fields)
 	}
-	for s := range known {
-		fm.Series = append(fm.Series, s)
-	}
-	sort.Slice(fm.Series, func(i, j int) bool { return fm.Series[i] < fm.Series[j] })
-
 	start, width := genWindow(t, lbl)
 	points := 0
 	for si, s := range dataSeries {
@@ -217,6 +218,23 @@ func genFileMetric(t *rapid.T, sc *schema, metricID uint32, lbl string) *fileMet
 	if points == 0 {
 		t.Fatalf("harness: generated a metric without points")
 	}
+	if len(fm.Fields) == 1 && ev.Known(SigEmptyBucket) {
+		// listed finding: a single-field block whose roaring container holds only series
+		// without data makes every compaction of the file fail; exclude exactly that shape
+		withData := map[uint32]bool{}
+		for s := range fm.Data {
+			withData[s>>16] = true
+		}
+		for s := range known {
+			if !withData[s>>16] {
+				delete(known, s)
+			}
+		}
+	}
+	for s := range known {
+		fm.Series = append(fm.Series, s)
+	}
+	sort.Slice(fm.Series, func(i, j int) bool { return fm.Series[i] < fm.Series[j] })
 	return fm
 }
 
